@@ -111,7 +111,7 @@ Lemma call_check_minimal fp numreg st :
   fp + numreg < st -> after_call_check fp numreg st = st.
 Proof. intros H. unfold after_call_check. destruct (Nat.leb st (fp + numreg)) eqn:E; [apply Nat.leb_le in E; lia|reflexivity]. Qed.
 
-(* the former test used > (before fix 06a16cd): with fp + numreg = st the stack was not grown and
+(* the former test used > (before fix 1709e08): with fp + numreg = st the stack was not grown and
    the last register was one past the end *)
 Lemma call_check_gt_off_by_one :
   exists fp numreg st, numreg <= 127 /\ fp + numreg = st /\ after_call_check_gt fp numreg st = st /\
